@@ -566,6 +566,23 @@ def prep_reject(ctx: Ctx, case):
         ctx.fail(case, f"accepts: a matrix beyond the tolerances did not raise {desc}")
     elif pv == "ok" and exc is not None:
         ctx.fail(case, f"rejects: a matrix within the tolerances raised {got} {desc}")
+    # ---- a batch must raise iff one of its items raises when converted alone (check=True)
+    if n > 1 and case["check"] and pv in ("ok", "raise"):
+        single_raises = []
+        for i in range(n):
+            try:
+                with warnings.catch_warnings():
+                    warnings.simplefilter("ignore")
+                    call_conv(dict(case, api="direct"), M[i:i + 1].clone())
+                single_raises.append(False)
+            except ValueError:
+                single_raises.append(True)
+            except Exception as e:
+                single_raises.append(True)
+                ctx.fail(case, f"exctype: item {i} alone raised {type(e).__name__} instead of ValueError {desc}")
+        if any(single_raises) != (exc is not None):
+            ctx.fail(case, f"batch: the batch {'raised' if exc is not None else 'returned'} but converting its items one by one "
+                           f"{'raises for items ' + str([i for i, r in enumerate(single_raises) if r]) if any(single_raises) else 'raises for none'} {desc}")
     # ---- correspondence (verdict and message kind), model evaluated at tol·(1±band) too
     b = band_of(case)
     lines = []
@@ -944,6 +961,345 @@ def run_dispatch(ctx: Ctx):
     ctx.count("dispatch.cases", len(bad_shapes) * 4 + 5)
 
 
+
+# ----------------------------------------------------------------------------- deterministic corner corpus (runs first)
+
+def octahedral_quats():
+    """the 48 unit quaternions of the binary octahedral group = the 24 rotations of the cube, both signs: exact angle
+    pi about axes and edge diagonals, 90 / 120 degrees, R00 == R11 and R00 == -R11 ties, every mask region"""
+    import itertools
+    out = []
+    for i in range(4):
+        for sg in (1.0, -1.0):
+            q = [0.0] * 4
+            q[i] = sg
+            out.append(q)
+    for sg in itertools.product((0.5, -0.5), repeat=4):
+        out.append(list(sg))
+    r = math.sqrt(0.5)
+    for i, j in itertools.combinations(range(4), 2):
+        for a, b in itertools.product((r, -r), repeat=2):
+            q = [0.0] * 4
+            q[i], q[j] = a, b
+            out.append(q)
+    return out
+
+
+def corner_quats(atol=1e-5):
+    qs = [(q, "oct") for q in octahedral_quats()]
+    # mask thresholds: R22 = 1 - 2(x²+y²) = atol exactly / ±1e-9, with x = y and z = w ties
+    for d in (0.0, 1e-9, -1e-9):
+        sxy = (1 - (atol + d)) / 2
+        szw = 1 - sxy
+        qs.append(([math.sqrt(sxy / 2), math.sqrt(sxy / 2), math.sqrt(szw / 2), math.sqrt(szw / 2)], "R22=atol&ties"))
+        qs.append(([math.sqrt(sxy * 0.9), -math.sqrt(sxy * 0.1), math.sqrt(szw * 0.2), -math.sqrt(szw * 0.8)], "R22=atol"))
+    for th in (0.0, 1e-30, 1e-9, math.pi - 1e-9, math.pi, math.pi + 1e-9, 2 * math.pi - 1e-9):
+        d = _norm([1.0, -2.0, 0.5])
+        qs.append(([d[0] * math.sin(th / 2), d[1] * math.sin(th / 2), d[2] * math.sin(th / 2), math.cos(th / 2)], f"th={th:.3g}"))
+    return [(_norm(q), t) for q, t in qs]
+
+
+def roundtrip_corpus():
+    """mixed batches: every corner quaternion in ONE batch, item i with its own scale / translation (incl. values beyond
+    the documented ranges), each type x dtype x layout; plus the same items as a (7, 8) grid and one big batch"""
+    qs = corner_quats()
+    scales = [1.0, 1e-3, 1e3, 2.0, 1e-4, 1e4, 0.5, 1e6, 3e-4, 1e-2]
+    trans = [[0.0, 0.0, 0.0], [1.0, 2.0, 3.0], [1e6, -1e6, 1e6], [1e-30, 0.0, -1e-30], [-7.5, 1e3, 1e-3], [1e9, 1.0, -1e-9]]
+    out = []
+    ci = 0
+    for name in U.GROUPS:
+        for dtype in ("float64", "float32"):
+            for lay in LAYOUTS:
+                src = {"SO3": "SE3" if lay != "33" else "SO3", "SE3": "SE3", "RxSO3": "Sim3" if lay != "33" else "RxSO3", "Sim3": "Sim3"}[name]
+                rows, tags = [], []
+                for i, (q, tg) in enumerate(qs):
+                    rows.append(rows_of(src, trans[i % len(trans)], q, scales[(i + ci) % len(scales)]))
+                    tags.append(tg)
+                n = len(rows)
+                for shape in ([n], [7, n // 7]) if n % 7 == 0 else ([n],):
+                    out.append({"stream": "roundtrip", "type": name, "src": src, "dtype": dtype, "lay": lay, "shape": shape,
+                                "check": True, "rtol": 1e-5, "atol": 1e-5, "api": ["from_matrix", "direct", "defaults"][ci % 3],
+                                "rows": U.to_dtype_exact(rows, dtype)[1].tolist(), "tags": ["corpus"] + sorted(set(tags))[:2], "ci": ci})
+                ci += 1
+    # one large batch (vectorised kernels switch code paths with the size)
+    big = [rows_of("Sim3", trans[i % 6], qs[i % len(qs)][0], scales[i % 10]) for i in range(1031)]
+    out.append({"stream": "roundtrip", "type": "Sim3", "src": "Sim3", "dtype": "float64", "lay": "44", "shape": [1031], "check": True,
+                "rtol": 1e-5, "atol": 1e-5, "api": "from_matrix", "rows": big, "tags": ["corpus", "big"], "ci": 999})
+    return out
+
+
+def reject_corpus():
+    """fixed rejection cases: every perturbation kind at half / twice the tolerance (and far beyond), the bad item at every
+    position of a batch of three good ones, every type and dtype, default tolerances (half through the all-default call)"""
+    import random as _r
+    rng = _r.Random(11)
+    base = [[0.3, -1.2, 2.5], _norm([0.1, -0.4, 0.7, 0.58]), 1.0]
+    others = [([1.0, 0.0, -1.0], [0.5, 0.5, -0.5, 0.5], 2.0), ([0.0, 3.0, 0.0], [0.0, math.sqrt(0.5), 0.0, -math.sqrt(0.5)], 0.01)]
+    out = []
+    ci = 0
+    for name in U.GROUPS:
+        src = "Sim3" if name in ("Sim3", "RxSO3") else "SE3"
+        for dtype in ("float64", "float32"):
+            for kind in ["entry", "rowscale", "uniform", "reflect", "rank", "shear", "zero", "nonuniform", "none"]:
+                for fac, check in ((0.5, True), (2.0, True), (1e3, True), (2.0, False)):
+                    if kind in ("reflect", "rank", "zero", "none") and fac not in (2.0,):
+                        continue
+                    pos = ci % 3
+                    els = list(others)
+                    els.insert(pos, tuple(base))
+                    mats = []
+                    tol = 1e-5 + (1e-5 if kind in ("rowscale", "uniform", "nonuniform") else 0.0)
+                    for i, (t, q, sc) in enumerate(els):
+                        sc = sc if src == "Sim3" else 1.0
+                        X = P().LieTensor(torch.tensor(rows_of(src, list(t), list(q), sc), dtype=torch.float64), ltype=U.ltype(src))
+                        M = X.matrix().clone()
+                        if i == pos and kind != "none":
+                            M[:3, :3] = perturb(rng, M[:3, :3], kind, tol * fac)
+                        mats.append(slice_layout(M, LAYOUTS[ci % 3]).to(U.dt(dtype)).double().tolist())
+                    out.append({"stream": "reject", "type": name, "dtype": dtype, "lay": LAYOUTS[ci % 3], "check": check, "rtol": 1e-5,
+                                "atol": 1e-5, "api": ["defaults", "direct", "from_matrix"][ci % 3] if check else "direct", "kind": kind,
+                                "factor": fac, "bad_items": [pos] if kind != "none" else [], "mats": mats, "ci": ci, "corpus": True})
+                    ci += 1
+    # user tolerances: consecutive calls alternate between tolerance pairs, the deviation sits at half / twice the tolerance
+    # of THAT call (a tolerance remembered from an earlier call gives the wrong verdict here)
+    pairs = [(1e-5, 1e-5), (1e-3, 1e-3), (0.0, 1e-4), (1e-2, 1e-5), (1e-5, 1e-5), (1e-3, 1e-3)]
+    for name in ("SO3", "Sim3", "SE3", "RxSO3"):
+        src = "Sim3" if name in ("Sim3", "RxSO3") else "SE3"
+        for kind in ("entry", "uniform"):
+            for fac in (0.5, 2.0):
+                for rtol, atol in pairs:
+                    tol = atol + (rtol if kind == "uniform" else 0.0)
+                    t, q, sc = base
+                    X = P().LieTensor(torch.tensor(rows_of(src, list(t), list(q), 2.0 if src == "Sim3" else 1.0), dtype=torch.float64), ltype=U.ltype(src))
+                    M = X.matrix().clone()
+                    M[:3, :3] = perturb(rng, M[:3, :3], kind, tol * fac * (0.5 if kind == "uniform" else 1.0))
+                    out.append({"stream": "reject", "type": name, "dtype": "float64", "lay": "44", "check": True, "rtol": rtol, "atol": atol,
+                                "api": ["direct", "from_matrix", "from_matrix_pos"][ci % 3], "kind": kind, "factor": fac, "bad_items": [0],
+                                "mats": [M.tolist()], "ci": ci, "corpus": True})
+                    ci += 1
+    return out
+
+
+def run_corpus(ctx: Ctx):
+    rc = roundtrip_corpus()
+    ctx.count("corpus.roundtrip.batches", len(rc))
+    run_stream(ctx, rc, prep_roundtrip)
+    jc = reject_corpus()
+    ctx.count("corpus.reject.cases", len(jc))
+    run_stream(ctx, jc, prep_reject)
+
+
+# ----------------------------------------------------------------------------- call histories, stale reads, views and aliases
+
+def blocks_close(name, a, b, eps, k=4.0):
+    """per-block comparison of two storage tensors (n, dim): quaternion absolute, scale relative, translation exact"""
+    a, b = a.double().reshape(-1, U.GDIM[name]), b.double().reshape(-1, U.GDIM[name])
+    if a.shape != b.shape:
+        return False
+    if a.numel() == 0:
+        return True
+    ok = float((a[:, U.QSL[name]] - b[:, U.QSL[name]]).abs().max()) <= k * eps
+    if U.SIDX[name] is not None:
+        ok &= float(((a[:, U.SIDX[name]] - b[:, U.SIDX[name]]).abs() / b[:, U.SIDX[name]].abs()).max()) <= k * eps
+    if U.TSL[name] is not None:
+        ok &= torch.equal(a[:, U.TSL[name]], b[:, U.TSL[name]])
+    return bool(ok)
+
+
+def run_history(ctx: Ctx):
+    """deterministic. (a) one long history of calls in which EVERY per-call argument changes from call to call (type,
+    dtype, batch shape, layout, check, rtol, atol, api, eps of euler) — each call is repeated later in the history and must
+    return the same bits (a cache keyed by too little / state leaking between calls shows here); the signature defaults of
+    the public functions must be unchanged afterwards; (b) the caller's tensors are overwritten in place between calls
+    (copy_, item assignment, mul_) and converted again: the result must describe the current contents; (c) arguments that
+    are views: slices of a larger buffer, column-major, expanded, strided, permuted batch axes — same result as on a
+    contiguous clone, argument and the storage around the view bit-for-bit untouched."""
+    import random as _r
+    p = P()
+    rng = _r.Random(2611)
+    fns = {"mat2SO3": p.mat2SO3, "mat2SE3": p.mat2SE3, "mat2Sim3": p.mat2Sim3, "mat2RxSO3": p.mat2RxSO3,
+           "from_matrix": p.from_matrix, "euler2SO3": p.euler2SO3, "euler": p.LieTensor.euler}
+    defaults0 = {k: (getattr(f, "__defaults__", None), getattr(f, "__kwdefaults__", None)) for k, f in fns.items()}
+
+    def elem(name, dtype, shape):
+        n = int(math.prod(shape))
+        rows = [rows_of(name, *gen_elem(rng, common.EPS[dtype], 1e-5)[:3]) for _ in range(n)]
+        return p.LieTensor(torch.tensor(rows, dtype=torch.float64).reshape(tuple(shape) + (U.GDIM[name],)).to(U.dt(dtype)),
+                           ltype=U.ltype(name))
+
+    # ---- (a) history with every argument varied, each call repeated
+    calls = []
+    shapes = [(), (3,), (2, 3), (1,), (4,), (0,), (2, 2)]
+    k = 0
+    for rep in range(2):
+        for name in U.GROUPS:
+            for dtype in ("float64", "float32"):
+                shape = shapes[k % len(shapes)]
+                rtol, atol = TOLS[k % len(TOLS)]
+                src = {"SO3": "SE3", "SE3": "SE3", "RxSO3": "Sim3", "Sim3": "Sim3"}[name]
+                case = {"stream": "history", "type": name, "src": src, "dtype": dtype, "lay": LAYOUTS[k % 3], "shape": list(shape),
+                        "check": k % 4 != 3, "rtol": rtol, "atol": atol, "api": ["direct", "from_matrix", "from_matrix_pos"][k % 3], "ci": k}
+                M = slice_layout(elem(src, dtype, shape).matrix(), case["lay"])
+                calls.append(("conv", case, M))
+                calls.append(("euler2SO3", {"stream": "history", "fn": "euler2SO3", "dtype": dtype, "shape": list(shape), "ci": k},
+                              torch.tensor([gen_euler_angles(rng, common.EPS[dtype]) for _ in range(int(math.prod(shape)))],
+                                           dtype=torch.float64).reshape(tuple(shape) + (3,)).to(U.dt(dtype))))
+                calls.append(("euler", {"stream": "history", "fn": "euler", "dtype": dtype, "shape": list(shape),
+                                        "eeps": [2e-4, 1e-2, 1e-6][k % 3], "ci": k}, elem("SO3", dtype, shape)))
+                k += 1
+
+    def do(kind, case, arg):
+        if kind == "conv":
+            with warnings.catch_warnings():
+                warnings.simplefilter("ignore")
+                return call_conv(case, arg).tensor()
+        if kind == "euler2SO3":
+            return p.euler2SO3(arg).tensor()
+        return arg.euler(eps=case["eeps"])
+    first = []
+    order = list(range(len(calls)))
+    for i in order:
+        kind, case, arg = calls[i]
+        try:
+            first.append(do(kind, case, arg.clone()))
+        except Exception as e:
+            first.append(None)
+            ctx.fail(case | {"call_index": i}, f"raises: call #{i} of the history ({kind} {case.get('type', '')} {case['dtype']} lshape {case['shape']}) raised "
+                                               f"{type(e).__name__}: {str(e)[:100]}")
+    rng.shuffle(order)
+    for i in order:     # the same calls again, in another order: same bits
+        kind, case, arg = calls[i]
+        if first[i] is None:
+            continue
+        try:
+            again = do(kind, case, arg.clone())
+            ok = again.shape == first[i].shape and again.dtype == first[i].dtype and torch.equal(torch.nan_to_num(again), torch.nan_to_num(first[i]))
+        except Exception as e:
+            ok, again = False, f"{type(e).__name__}: {str(e)[:80]}"
+        ctx.note_case(("history", kind, case.get("type"), case["dtype"], tuple(case["shape"]), case["ci"]), True)
+        if not ok:
+            ctx.fail(case | {"call_index": i}, f"history: repeating call #{i} ({kind} {case.get('type', '')} {case['dtype']} lshape {case['shape']}, check={case.get('check')}, "
+                                               f"tol=({case.get('rtol')},{case.get('atol')})) later in a history of {len(calls)} differently-parameterised calls gives a different result")
+    ctx.count("history.calls", 2 * len(calls))
+    for kname, f in fns.items():
+        if (getattr(f, "__defaults__", None), getattr(f, "__kwdefaults__", None)) != defaults0[kname]:
+            ctx.fail({"stream": "history", "fn": kname}, f"history: signature defaults of {kname} changed during the call history")
+
+    # ---- (b) stale reads: the caller's tensor is overwritten in place between calls
+    for name in U.GROUPS:
+        for dtype in ("float64", "float32"):
+            src = {"SO3": "SE3", "SE3": "SE3", "RxSO3": "Sim3", "Sim3": "Sim3"}[name]
+            case = {"stream": "stale", "type": name, "src": src, "dtype": dtype, "lay": "44", "shape": [3], "check": True, "rtol": 1e-5,
+                    "atol": 1e-5, "api": "from_matrix", "ci": 0}
+            M = elem(src, dtype, (3,)).matrix().clone()
+            try:
+                with warnings.catch_warnings():
+                    warnings.simplefilter("ignore")
+                    call_conv(case, M)
+                    for u, upd in enumerate(["copy_", "setitem", "copy_", "swap"]):
+                        if upd == "copy_":
+                            M.copy_(elem(src, dtype, (3,)).matrix())
+                        elif upd == "setitem":
+                            M[1] = elem(src, dtype, ()).matrix()
+                        else:
+                            M.copy_(M.flip(0).clone())
+                        a = call_conv(case, M).tensor()
+                        b = call_conv(case, M.clone()).tensor()
+                        ctx.note_case(("stale", name, dtype, u), True)
+                        if not torch.equal(a, b):
+                            ctx.fail(case | {"update": upd, "update_index": u}, f"stale: {name} conversion of a matrix tensor after in-place update #{u} ({upd}) differs from the "
+                                                                                 f"conversion of a fresh clone ({dtype})")
+                            break
+            except Exception as e:
+                ctx.fail(case, f"raises: stale-read probe of the {name} conversion raised {type(e).__name__}: {str(e)[:100]}")
+    for dtype in ("float64", "float32"):
+        case = {"stream": "stale", "fn": "euler2SO3", "dtype": dtype}
+        E = torch.tensor([[0.1, -0.2, 0.3], [1.0, 0.5, -2.0]], dtype=U.dt(dtype))
+        try:
+            p.euler2SO3(E)
+            for u, upd in enumerate(["mul_", "setitem", "copy_"]):
+                if upd == "mul_":
+                    E.mul_(-1.5)
+                elif upd == "setitem":
+                    E[0, 1] = 1.2
+                else:
+                    E.copy_(torch.tensor([[3.0, -1.5, 0.25], [-0.75, 0.125, 2.5]], dtype=U.dt(dtype)))
+                ctx.note_case(("stale", "euler2SO3", dtype, u), True)
+                if not torch.equal(p.euler2SO3(E).tensor(), p.euler2SO3(E.clone()).tensor()):
+                    ctx.fail(case | {"update": upd}, f"stale: euler2SO3 of an angle tensor after in-place update ({upd}) differs from the call on a fresh clone ({dtype})")
+                    break
+        except Exception as e:
+            ctx.fail(case, f"raises: stale-read probe of euler2SO3 raised {type(e).__name__}: {str(e)[:100]}")
+
+    # ---- (c) views and aliases
+    def check_view(case, fn, view, whole, out_name=None):
+        """fn(view) must equal fn(view.contiguous().clone()); `view` and the buffer `whole` around it stay bit-identical"""
+        eps = common.EPS[case["dtype"]]
+        ctx.note_case(("views", case.get("fn"), case.get("type"), case["dtype"], case["view"]), True)
+        ctx.count(f"views.{case['view']}")
+        is_lt = hasattr(view, "ltype")
+        vt = view.tensor() if is_lt else view
+        v0, w0 = vt.clone(), whole.clone()
+        fresh = p.LieTensor(v0.contiguous().clone(), ltype=view.ltype) if is_lt else v0.contiguous().clone()
+        try:
+            with warnings.catch_warnings():
+                warnings.simplefilter("ignore")
+                a = fn(view)
+                b = fn(fresh)
+        except Exception as e:
+            ctx.fail(case, f"raises: {case.get('fn')} {case.get('type', '')} on a non-contiguous view ({case['view']}, shape {tuple(vt.shape)}, strides {tuple(vt.stride())}, "
+                           f"{case['dtype']}) raised {type(e).__name__}: {str(e)[:100]}")
+            return
+        a = a.tensor() if hasattr(a, "ltype") else a
+        b = b.tensor() if hasattr(b, "ltype") else b
+        if out_name is not None:
+            same = blocks_close(out_name, a, b, eps)
+        else:
+            same = a.shape == b.shape and (a.numel() == 0 or float((a.double() - b.double()).abs().max()) <= 64 * eps)
+        if a.shape != b.shape or a.dtype != b.dtype or not same:
+            ctx.fail(case, f"views: {case.get('fn')} {case.get('type', '')} on a view ({case['view']}) differs from the call on a contiguous clone ({case['dtype']})")
+        if not torch.equal(vt, v0) or not torch.equal(whole, w0):
+            ctx.fail(case, f"mutates: {case.get('fn')} {case.get('type', '')} modified its argument or the storage around the view ({case['view']}, {case['dtype']})")
+
+    for name in U.GROUPS:
+        for dtype in ("float64", "float32"):
+            D = U.dt(dtype)
+            src = {"SO3": "SE3", "SE3": "SE3", "RxSO3": "Sim3", "Sim3": "Sim3"}[name]
+            Mc = elem(src, dtype, (2, 3)).matrix().clone()
+            f = lambda m, name=name: p.from_matrix(m, U.ltype(name))
+            base = {"stream": "views", "fn": "from_matrix", "type": name, "dtype": dtype}
+            buf = torch.full((2, 3, 6, 7), 7.25, dtype=D)
+            buf[..., 1:5, 2:6] = Mc
+            check_view(base | {"view": "slice-of-buffer"}, f, buf[..., 1:5, 2:6], buf, name)
+            check_view(base | {"view": "slice-3x4-of-buffer"}, f, buf[..., 1:4, 2:6], buf, name)
+            cm = Mc.mT.contiguous().mT
+            check_view(base | {"view": "column-major"}, f, cm, cm, name)
+            ex = Mc[0, 0].expand(4, 4, 4)
+            check_view(base | {"view": "expanded"}, f, ex, Mc, name)
+            big = torch.stack([Mc, Mc.flip(0), Mc], 0)            # (3,2,3,4,4)
+            check_view(base | {"view": "strided-batch"}, f, big[::2], big, name)
+            pb = Mc.transpose(0, 1)                                  # (3,2,4,4) permuted batch axes
+            check_view(base | {"view": "permuted-batch"}, f, pb, Mc, name)
+            # LieTensor views for matrix() / euler()
+            X = elem(name, dtype, (4, 5))
+            for vn, V in (("slice", X[::2, 1:4]), ("permuted-batch", p.LieTensor(X.tensor().transpose(0, 1), ltype=X.ltype)),
+                          ("expanded", p.LieTensor(X.tensor()[0, 0].expand(3, 2, U.GDIM[name]), ltype=X.ltype))):
+                check_view({"stream": "views", "fn": "euler", "type": name, "dtype": dtype, "view": vn}, lambda v: v.euler(), V, X.tensor())
+                check_view({"stream": "views", "fn": "matrix+from_matrix", "type": name, "dtype": dtype, "view": vn},
+                           lambda v, name=name: p.from_matrix(v.matrix(), U.ltype(name)), V, X.tensor(), name)
+    for dtype in ("float64", "float32"):
+        D = U.dt(dtype)
+        ang = torch.tensor([gen_euler_angles(rng, common.EPS[dtype]) for _ in range(12)], dtype=torch.float64).to(D)
+        base = {"stream": "views", "fn": "euler2SO3", "dtype": dtype}
+        wide = torch.full((12, 6), 0.5, dtype=D)
+        wide[:, ::2] = ang
+        check_view(base | {"view": "strided-last-axis"}, p.euler2SO3, wide[:, ::2], wide, "SO3")
+        check_view(base | {"view": "expanded"}, p.euler2SO3, ang[0].expand(5, 3), ang, "SO3")
+        g = ang.reshape(3, 4, 3)
+        check_view(base | {"view": "slice"}, p.euler2SO3, g[1:, ::2], g, "SO3")
+        check_view(base | {"view": "permuted-batch"}, p.euler2SO3, g.transpose(0, 1), g, "SO3")
+
+
 # ----------------------------------------------------------------------------- entry points
 
 def run(ctx: Ctx):
@@ -952,10 +1308,12 @@ def run(ctx: Ctx):
         return {"euler": lambda o: o.euler(), "matrix": lambda o: o.matrix(),
                 "from_matrix": lambda o: _UL.pp().from_matrix(o.matrix(), o.ltype, check=False).matrix()}
     _UL.persistent_probe(ctx, _reads)
+    run_corpus(ctx)          # deterministic corner corpus first: detection never depends on the seed
+    run_history(ctx)
     run_dispatch(ctx)
     run_kernel(ctx, ctx.pick(150, 1500))
-    run_roundtrip(ctx, ctx.pick(900, 9000))
-    run_reject(ctx, ctx.pick(750, 6000))
+    run_roundtrip(ctx, ctx.pick(800, 9000))
+    run_reject(ctx, ctx.pick(700, 6000))
     run_euler(ctx, ctx.pick(650, 7000))
     run_warn(ctx, ctx.pick(80, 800))
 
@@ -974,7 +1332,14 @@ def replay(ctx: Ctx, case) -> bool:
     c = dict(case["case"])
     n0 = len(ctx.failures)
     prep = {"roundtrip": prep_roundtrip, "reject": prep_reject, "euler": prep_euler}.get(c.get("stream"))
-    if prep is None:
+    if c.get("stream") in ("history", "stale", "views"):
+        print("  (the deterministic history / stale-read / view probes are re-run as a whole)")
+        run_history(ctx)
+    elif c.get("stream") == "persistent":
+        from . import util_lie as _UL
+        _UL.persistent_probe(ctx, lambda name: {"euler": lambda o: o.euler(), "matrix": lambda o: o.matrix(),
+                                                "from_matrix": lambda o: _UL.pp().from_matrix(o.matrix(), o.ltype, check=False).matrix()})
+    elif prep is None:
         print("  (streams warn/dispatch/kernel are re-run as a whole)")
         run_dispatch(ctx)
         run_warn(ctx, 80)
